@@ -180,3 +180,32 @@ def sampler_keys(ctx, fi: FuncInfo, rule: str = "PRNG-1") -> int:
                    ev.line_of.get(t.uid, fi.lineno))
             n += 1
     return n
+
+
+def block_estimator_population(p: Program):
+    """(ok, message, fi): the block energy of sampler._block_scan averages over the *stored* population weights:
+    the weight vector under both sums is the very term returned as prop_data['weights'].  A masked or otherwise
+    modified copy makes the normaliser vanish while walkers are alive (0/0 in the population-control shift) and
+    changes the documented estimator."""
+    fi = p.func("sampling.sampler._block_scan")
+    ev = Evaluator(p)
+    fr = ev.eval_function(fi)
+    R = ev.result(fr)
+    if R is None or R.op != "tuple" or len(R.args) != 2:
+        raise AnalysisError("_block_scan: unmodelled return")
+    be = getitem(R.args[1], const(0))
+    bw = strip_wrappers(getitem(R.args[1], const(1)))
+    wm = wmean(be)
+    if wm is None:
+        return False, f"block energy is not a weighted mean: {show(be, maxdepth=3)[:100]}", fi
+    ok, msg, ns, d = wm
+    stored = strip_wrappers(getitem(R.args[0], const("weights")))
+    same = d is stored
+    bw_ok = _sum_arg(bw) is not None and strip_wrappers(_sum_arg(bw)) is stored
+    shift = strip_wrappers(getitem(R.args[0], const("pop_control_ene_shift")))
+    uses = any(x is strip_wrappers(be) for x in subterms(shift))
+    return (ok and same and bw_ok and uses,
+            ("weights under the sums are the stored prop_data['weights']" if same else
+             f"the averaged weights {show(d, maxdepth=2)[:70]} are not the stored population weights")
+            + ("" if bw_ok else "; the reported block weight is not their sum")
+            + ("" if uses else "; the population-control shift does not use this block energy"), fi)
